@@ -5,6 +5,7 @@ ASSUME = [
     "receiver runs as root on ext4 (xattrs user./trusted., mknod, chown available)",
     "sockets, device majors >= 4096 and non-regular hard-link groups are outside the generators' domain",
     "two generated file versions with different bytes never share (size, mtime) (the metadata differ cannot tell them apart by design)",
+    "model -> code conformance: the 42 (destination entry, incoming stat) pairs of spec/DiskWriterMC.tla are written by TLC with the outcome of the model's run and performed on the real DiskWriter (spec/DWTrace.tla compares)",
     "bounded universe: 49 trees over names a, a-b; random trees <= 40 entries, seeded by VERIF_SEED",
 ]
 
@@ -64,9 +65,30 @@ def _mc(run):
 LOCAL = ("faults", ["-what", "local"], "faults-local")
 
 
+def _dwcases(run):
+    """model -> code: TLC writes every (destination entry, incoming stat) pair of DiskWriterMC with the model's outcome; the driver
+    runs the real DiskWriter.HandleChange on each; DWTrace compares (and evaluates the model's invariants on the real outcome)"""
+    import os
+    from vlib import Inconclusive, confirm_by_replay
+    gen = os.path.join(run.work, "gen-dw")
+    os.makedirs(gen, exist_ok=True)
+    run.tlc_mc("DiskWriterMC", "DiskWriterMC_gen.cfg", workers=1, label="TLC enumerates the 42 (old entry, incoming stat) pairs of DiskWriterMC with the outcome of the model's run", env=dict(VERIF_GEN_DIR=gen))
+    n = len([f for f in os.listdir(gen) if f.startswith("dwcase_")])
+    if n != 42:
+        raise Inconclusive("DiskWriterMC case generation wrote %d files, 42 expected" % n)
+    t, _ = run.drive("dwcases", env=dict(VERIF_GEN_DIR=gen))
+    tr = run.tlc_trace("DWTrace", t, shards=1)
+    if tr["lines"] != 42:
+        raise Inconclusive("dwcases produced %d events, 42 expected" % tr["lines"])
+    md = syncfam.model_disagreements(tr)
+    tr = syncfam.filter_prefix(tr, {"C01"})
+    fails = confirm_by_replay(run, "dwcases", "DWTrace", tr, text_fn=lambda evs, cl: "DiskWriter.HandleChange old=%s new=%s obs=%s" % (evs[0]["old"], evs[0]["new"], evs[0]["obs"]))
+    return fails, md
+
+
 def check(run):
     # also: small transfers with one fault that leaves the stream intact - success must still mean "equal to the source"
-    return syncfam.run_family(run, "C01", "sync", {"C01"}, mc=_mc, assumptions=ASSUME, also=[LOCAL], witness=False, selftests=[
+    return syncfam.run_family(run, "C01", "sync", {"C01"}, mc=_mc, assumptions=ASSUME, also=[LOCAL], witness=False, more=_dwcases, selftests=[
         ("flip a permission bit in the after-snapshot", _corrupt_after),
         ("change the content id of a stored file", _corrupt_content),
         ("drop the last entry of the after-snapshot", _drop_entry)])
@@ -78,6 +100,12 @@ def replay(run, path):
     run.build()
     d = json.load(open(path))
     ev0 = (d.get("events") or [d])[0]
+    if ev0.get("ev") == "DWCase":
+        from vlib import confirm_by_replay
+        t, _ = run.drive("dwcases", replay=path)
+        tr = syncfam.filter_prefix(run.tlc_trace("DWTrace", t, shards=1), {"C01"})
+        fails = confirm_by_replay(run, "dwcases", "DWTrace", tr)
+        return finish(run, "model_checking", fails, assumptions=ASSUME)
     if "fault" in ev0:
         t, _ = run.drive("faults", replay=path, extra=LOCAL[1])
     else:
